@@ -1,7 +1,8 @@
 (* C15 — correspondence check and oracles, evaluated by vm_compute on what the Go harness observed on the
    real NodePool.Hash(), hash controller and drift sub-reconciler. *)
-From KV Require Import C15.Model gen.C15_fields.
+From KV Require Import C15.Model C15.DriftModel gen.C15_fields.
 Open Scope string_scope.
+Open Scope list_scope.
 
 (* what the property demands of a pair of templates, by construction of the pair (the mutation applied) *)
 Inductive expectation :=
@@ -15,7 +16,14 @@ Definition pair_holds_b (e : expectation) (hash_eq : bool) : bool :=
   match e with Same => hash_eq | Differ => negb hash_eq | DontCare => true end.
 
 Inductive case :=
-| CasePair (a b : gv) (e : expectation) (hash_eq : bool).
+| CasePair (a b : gv) (e : expectation) (hash_eq : bool)
+(* one reconcile of the real hash controller: np.Hash(), annotations of the pool and of its claims before / after *)
+| CaseHashCtl (h : string) (pool_before : option string * option string) (claims_before : list cl_ann)
+              (pool_after : option string * option string) (claims_after : list cl_ann)
+(* one NodePool through template construction, ToNodeClaim, launch, and a sequence of drift reconciles *)
+| CaseSys (validated : bool) (noresolve : list string) (p : pool) (pod : list (string * call))
+          (claim_l provider_l final_l : labels) (fresh_scenario : bool) (steps : list (dinput * option string))
+| CaseNote.
 
 (* monomorphic list builders: the generated case files contain no implicit arguments to infer *)
 Definition vnil : list gv := nil.
@@ -29,6 +37,41 @@ Definition scons (x : string) (t : list string) : list string := x :: t.
 Definition lnil : list (string * string) := nil.
 Definition lcons (k v : string) (t : list (string * string)) : list (string * string) := (k, v) :: t.
 
+Definition nomv : option Z := None.
+Definition nostr : option string := None.
+Definition sostr (s : string) : option string := Some s.
+Definition nocat : option catalog := None.
+Definition cnil : list (string * call) := nil.
+Definition ccons (k : string) (o : oper) (mv : option Z) (vs : list string) (t : list (string * call)) : list (string * call) :=
+  (k, (o, mv, vs)) :: t.
+Definition onil : list offering := nil.
+Definition ocons (z ct : string) (rid : option string) (t : list offering) : list offering := mkOff z ct rid :: t.
+Definition itnil : catalog := nil.
+Definition itcons (n : string) (offs : list offering) (t : catalog) : catalog := (n, offs) :: t.
+
+Definition ann_eqb (a b : cl_ann) : bool :=
+  opt_str_eqb (a_hash a) (a_hash b) && opt_str_eqb (a_ver a) (a_ver b) && Bool.eqb (a_drifted a) (a_drifted b).
+Fixpoint anns_eqb (a b : list cl_ann) : bool :=
+  match a, b with
+  | [], [] => true
+  | x :: a', y :: b' => ann_eqb x y && anns_eqb a' b'
+  | _, _ => false
+  end.
+
+(* the drift steps of one claim: the instance-type cache and the previous condition are threaded; after each
+   step the model continues from what the implementation did *)
+Fixpoint check_steps (n : nat) (fresh_scenario : bool) (validated : bool) (cached : bool) (prev : option string)
+         (steps : list (dinput * option string)) : list string :=
+  match steps with
+  | [] => []
+  | (d0, obs) :: rest =>
+      let d := with_cached d0 cached in
+      let fresh := validated && (Nat.eqb n 0 || fresh_scenario) in
+      (if opt_str_eqb (drift_reconcile d prev) obs then [] else ["corr:drift-reconcile"])
+      ++ step_oracle_b fresh d obs
+      ++ check_steps (S n) fresh_scenario validated (cache_after d) obs rest
+  end.
+
 Definition tag (ok : bool) (t : string) : list string := if ok then [] else [t].
 
 Definition check_case (c : case) : list string :=
@@ -37,6 +80,17 @@ Definition check_case (c : case) : list string :=
       tag (conforms struct_table a && conforms struct_table b) "corr:field-table"
       ++ tag (Bool.eqb (same_hash struct_table a b) hash_eq) "corr:hash-equality"
       ++ tag (pair_holds_b e hash_eq) "oracle:hash-pair"
+  | CaseHashCtl h pb cb pa ca =>
+      let '(pa', ca') := hash_reconcile hash_version h pb cb in
+      tag (opt_str_eqb (fst pa') (fst pa) && opt_str_eqb (snd pa') (snd pa)) "corr:hash-controller-pool"
+      ++ tag (anns_eqb ca' ca) "corr:hash-controller-claims"
+      (* oracle: afterwards the pool carries the current hash under the current version *)
+      ++ tag (opt_str_eqb (fst pa) (Some h) && opt_str_eqb (snd pa) (Some hash_version)) "oracle:pool-annotated"
+  | CaseSys validated noresolve p pod claim_l provider_l final_l fresh_scenario steps =>
+      tag (claim_labels_allowed noresolve p pod claim_l) "corr:claim-labels"
+      ++ tag (labels_eqb (populate claim_l provider_l) final_l) "corr:populate"
+      ++ check_steps 0 fresh_scenario validated false None steps
+  | CaseNote => []
   end.
 
 Definition check_all (cs : list (Z * case)) : list (Z * string) :=
